@@ -511,6 +511,26 @@ def boundary_layer(case, profile):
     for k, op in enumerate(case["ops"]):
         if op[0] == "set" and op[3] == "max_step" and rng.random() < 0.3:
             op[4] = rng.choice([0, 0.0, 1e-300, float("inf")])
+    # ---- limits re-assigned so that the start point (iteration 0) / the current point lies OUTSIDE them -------------
+    def excluding(j):
+        c = case["x0"][j]
+        return rng.choice([[c + 0.2, c + 1.5], [c - 1.5, c - 0.2], [c + 0.05, None], [None, c - 0.05], [c + 1e-9, c + 3.0]])
+    for op in case["ops"]:
+        if op[0] == "set" and op[3] == "limits" and rng.random() < 0.3:
+            op[4] = excluding(op[2])
+    if case.get("twin") is None and rng.random() < {"C09": 0.10, "C10": 0.05, "C15": 0.05}[profile]:
+        inside = all(v["limits"] is None or ((v["limits"][0] is None or v["limits"][0] <= x) and (v["limits"][1] is None or x <= v["limits"][1]))
+                     for v, x in zip(vary, case["x0"]))
+        if rng.random() < 0.6 and inside:       # (a start outside the limits stays a constructor error)
+            case["opts"]["check_limits"] = False
+        act = [j for j in range(n) if vary[j]["active"]] or [0]
+        sets = [["set", "vary", j, "limits", excluding(j)] for j in rng.sample(act, rng.choice([1, 1, min(2, len(act))]))]
+        tail = rng.choice([[["solve", rng.choice([None, 1, 2]), True, False]],
+                           [["step", 1, True, {}, False], ["solve", None, True, False]],
+                           [["solve", 1, False, False], ["reload", 0]],
+                           [["reload", 0], ["tag", "t1"]]])
+        pos = rng.randrange(len(case["ops"]) + 1) if rng.random() < 0.5 else 0
+        case["ops"] = case["ops"][:pos] + sets + tail + case["ops"][pos:]
     return case
 
 
@@ -1023,7 +1043,8 @@ WHAT = {
     "C10": "log rows and containers inside the closed limits; |delta knob| <= max_step between consecutive Jacobian-step rows; "
            "disabled knobs unchanged; a disabled target's component does not influence the steps; temporary disable_* arguments undone",
     "C15": "every log row: reload(i) puts knobs/flags back and an independent evaluation reproduces penalty and targets; "
-           "step(take_best=True) ends within tolerance or on the minimum-penalty point logged during the call",
+           "step(take_best=True) ends within tolerance or on the minimum-penalty point logged during the call; "
+           "the rows are read through the public Optimize.log() table, which after every operation must show exactly the recorded rows",
 }
 
 
@@ -1038,7 +1059,8 @@ def run_property(ctx, pid, n_quick, n_thorough):
                 "rarely used constructor forms, string selectors in every accepted form (single string, list, mixed with ids; exact tag / name, escaped, regular expressions) over tag and name sets with proper prefixes, common suffixes, regex metacharacters, case variants, empty and duplicate tags and indexed names k1..k12; a boundary layer over the generated cases: knobs in 2..3 containers with equal names "
                 "in different containers, duck-typed transform hooks on targets (abs, square, scaling, lower / upper clip), target values as objects "
                 "with _value, container.vary_default, max_step 0 / 0.0 / 1e-300 / inf / numpy scalars (alone or with every other max_step None or 0), "
-                "tol 0, limits lo == hi and (0, 0), step 0, broyden=0, solve(n_steps=0); profile " + pid +
+                "tol 0, limits lo == hi and (0, 0), step 0, broyden=0, solve(n_steps=0), limits re-assigned so that iteration 0 / the current point "
+                "lies outside them (both check_limits settings) followed by solve / step / reload; profile " + pid +
                 "; non-trivial = at least one Jacobian step and the mechanism of the property exercised (see feature_key); "
                 "distinct by (function, start, ops, options)")
     proof_ok = vlib.standard_proof_part(ctx, f"props/{pid}.v", allowed_axioms=(), extra_targets=["run/RunOpt.vo"])
